@@ -176,6 +176,11 @@ func (c *wctx) stmts(list []ast.Stmt, k func(c *wctx) string) string {
 	if len(list) == 0 {
 		return k(c)
 	}
+	if c.f.stmtExt != nil {
+		if text, ok := c.f.stmtExt(c, list, k); ok {
+			return text
+		}
+	}
 	s, rest := list[0], list[1:]
 	next := func(c *wctx) string { return c.stmts(rest, k) }
 	switch s := s.(type) {
@@ -747,7 +752,7 @@ func (c *wctx) rangeStmt(s *ast.RangeStmt, next func(c *wctx) string) string {
 			isState[st] = true
 		}
 		for _, n := range c.order {
-			if in.marks[n] && !isState[n] && c.vars[n] != nil && n != key && n != val {
+			if in.marks[n] && !isState[n] && c.vars[n] != nil && n != key && n != val && c.vars[n].typ != "closure!" {
 				free = append(free, n)
 			}
 		}
@@ -815,7 +820,11 @@ func (c *wctx) rangeStmt(s *ast.RangeStmt, next func(c *wctx) string) string {
 	for _, st := range state {
 		stNames = append(stNames, st)
 	}
-	doc := fmt.Sprintf("/-- %s: the loop `for %s, %s := range %s`, a recursion over the slice; loop state (%s) -/", c.f.what, key, val,
+	vars := key + ", " + val
+	if s.Value == nil {
+		vars = key
+	}
+	doc := fmt.Sprintf("/-- %s: the loop `for %s := range %s`, a recursion over the slice; loop state (%s) -/", c.f.what, vars,
 		leanCommentBare(c.src(s.X)), strings.Join(stNames, ", "))
 	h := fmt.Sprintf("%s\ndef %s%s : %s → %s\n  | %s => %s\n  | %s =>\n%s\n", doc, helper, wJoinLead(binders), strings.Join(argTypes, " → "), rt,
 		strings.Join(nilPat, ", "), done, strings.Join(consPat, ", "), wIndent(wIndent(body)))
